@@ -55,6 +55,9 @@ pub fn integrate_gaussian<N: ComplexField + FromPrimitive + Copy, F: FnMut(N::Re
 where
     <N as ComplexField>::RealField: FromPrimitive + Copy,
 {
+    if left >= right {
+        return Err("integrate_gaussian: left must be less than right".to_owned());
+    }
     if !tol.is_sign_positive() {
         return Err("integrate_gaussian: tol must be positive".to_owned());
     }
